@@ -30,7 +30,7 @@ from ..exc import raised_class
 from ..loader import AnalysisError, ClassInfo, FunctionInfo, walk_scope
 from ..resolve import last_attr
 from ..util import calls, mini_eval, names_in, one, some, txt
-from ._g7_helpers import CIDict, Interp, dataclass_fields, module_str_consts
+from ._g7_helpers import CIDict, Interp, dataclass_fields, expand, expand_body, module_str_consts
 
 META = {
     "text": "Finite abstract interpretation of the sticky sink (open/close), the response-header emission and the client's header capture, extracted from their ASTs and composed with an abstract server, "
@@ -154,8 +154,10 @@ def _check_callcontext(ctx: Ctx, sink_role: dict[str, FunctionInfo], accept_f: s
     sentinel = _Obj("sink")
 
     # opt-in gate
-    tests = [n for n in walk_scope(co.node) if isinstance(n, (ast.If, ast.While)) and any(isinstance(x, ast.Attribute) and txt(x) == acc_text for x in ast.walk(n.test))]
-    decided = [(t, bool(mini_eval(t.test, {S: sentinel, acc_text: False}))) for t in tests]
+    xt = {id(n): expand(co, n.test) for n in walk_scope(co.node) if isinstance(n, (ast.If, ast.While))}  # tests with single-definition locals inlined
+    ifs = [n for n in walk_scope(co.node) if isinstance(n, (ast.If, ast.While))]
+    tests = [n for n in ifs if any(isinstance(x, ast.Attribute) and txt(x) == acc_text for x in ast.walk(xt[id(n)]))]
+    decided = [(t, bool(mini_eval(xt[id(t)], {S: sentinel, acc_text: False}))) for t in tests]
     r = _consistent_reach(cfg, decided)
     ctx.check(not (r & cfg.attempt(op)), "RF-DOM", "open-requires-opt-in", co, op,
               ok=f"with `{acc_text}` false the call `{txt(op.func)}(...)` is unreachable: a request without VGI-Session-Accept never opens a session",
@@ -164,15 +166,12 @@ def _check_callcontext(ctx: Ctx, sink_role: dict[str, FunctionInfo], accept_f: s
     # already-bound gate
     var = _session_ctxvar(ctx, cb_method["open"])
     get_text = f"{var}.get()"
-    bound_locals = {t.id for n in walk_scope(co.node) if isinstance(n, ast.Assign) and txt(n.value) == get_text for t in n.targets if isinstance(t, ast.Name)}
-    tests2 = [n for n in walk_scope(co.node) if isinstance(n, (ast.If, ast.While)) and (get_text in txt(n.test) or (names_in(n.test) & bound_locals))]
+    tests2 = [n for n in ifs if get_text in txt(xt[id(n)])]
     env2: dict[str, object] = {S: sentinel, get_text: _Obj("bound-session"), acc_text: True}
-    for b in bound_locals:
-        env2[b] = env2[get_text]
     decided2 = []
     for t in tests2:
         try:
-            decided2.append((t, bool(mini_eval(t.test, env2))))
+            decided2.append((t, bool(mini_eval(xt[id(t)], env2))))
         except AnalysisError:
             continue
     r2 = _consistent_reach(cfg, decided2)
@@ -204,11 +203,23 @@ def _check_callcontext(ctx: Ctx, sink_role: dict[str, FunctionInfo], accept_f: s
 def _check_accept_flag(ctx: Ctx, pr: FunctionInfo, ctor: ast.Call, accept_f: str) -> None:
     kw = one([k for k in ctor.keywords if k.arg == accept_f], f"`{accept_f}=` argument of the sink", pr)
     expr: ast.expr = kw.value
-    if isinstance(expr, ast.Name):
-        defs = [n.value for n in walk_scope(pr.node) if isinstance(n, ast.Assign) and any(isinstance(t, ast.Name) and t.id == expr.id for t in n.targets)]  # type: ignore[union-attr]
-        expr = one(defs, f"definition of `{txt(kw.value)}`", pr)
-    reads = [c for c in ast.walk(expr) if isinstance(c, ast.Call) and last_attr(c) in ("get_header", "get") and c.args]
-    rd = one(reads, "header read feeding the opt-in flag", pr)
+    # backward slice through single-assignment locals: name -> defining expression
+    defs: dict[str, ast.expr] = {}
+
+    def collect(e: ast.expr, depth: int = 0) -> None:
+        if depth > 4:
+            return
+        for nm in sorted(names_in(e)):
+            if nm in defs:
+                continue
+            ds = [n.value for n in walk_scope(pr.node) if isinstance(n, ast.Assign) and any(isinstance(t, ast.Name) and t.id == nm for t in n.targets)]
+            if len(ds) == 1:
+                defs[nm] = ds[0]
+                collect(ds[0], depth + 1)
+
+    collect(expr)
+    reads = [c for e in [expr, *defs.values()] for c in ast.walk(e) if isinstance(c, ast.Call) and last_attr(c) in ("get_header", "get") and c.args and isinstance(c.func, ast.Attribute) and isinstance(c.func.value, ast.Name) and c.func.value.id not in defs]
+    rd = one(list({txt(c): c for c in reads}.values()), "header read feeding the opt-in flag", pr)
     hname = ctx.repo.const_str(pr.module, rd.args[0])
     # the client's writer
     mh = ctx.fn(TRACK + "._merge_headers")
@@ -230,7 +241,15 @@ def _check_accept_flag(ctx: Ctx, pr: FunctionInfo, ctor: ast.Call, accept_f: str
     key = txt(rd)
 
     def ev(v: object) -> bool:
-        return bool(mini_eval(expr, {key: v}))
+        env: dict[str, object] = {key: v}
+
+        def val(e: ast.expr, depth: int = 0) -> object:
+            for nm in sorted(names_in(e)):
+                if nm not in env and nm in defs and depth < 5:
+                    env[nm] = val(defs[nm], depth + 1)
+            return mini_eval(e, env)
+
+        return bool(val(expr))
 
     ctx.check(ev(lit.value), "RF-TABLE", "opt-in-header-writer-reader-agree", pr, rd,
               ok=f"the client's `{hname}: {lit.value}` satisfies the server's opt-in predicate `{txt(expr)}`",
@@ -263,8 +282,9 @@ def _check_drain(ctx: Ctx, reg: ClassInfo, reg_open: FunctionInfo, reg_get: Func
     ins = some(inserts, "registration of the new session in _entries", reg_open)
     prop_names = {m.name for m in reg.methods.values() if any(isinstance(x, ast.Attribute) and x.attr == flag for x in walk_scope(m.node)) and any(isinstance(d, ast.Name) and d.id == "property" for d in m.node.decorator_list)}
     flag_texts = {ftext} | {f"self.{p}" for p in prop_names}
-    tests = [n for n in walk_scope(reg_open.node) if isinstance(n, (ast.If, ast.While)) and any(isinstance(x, ast.Attribute) and txt(x) in flag_texts for x in ast.walk(n.test))]
-    decided = [(t, bool(mini_eval(t.test, dict.fromkeys(flag_texts, True)))) for t in tests]
+    xt = {id(n): expand(reg_open, n.test) for n in walk_scope(reg_open.node) if isinstance(n, (ast.If, ast.While))}
+    tests = [n for n in walk_scope(reg_open.node) if isinstance(n, (ast.If, ast.While)) and any(isinstance(x, ast.Attribute) and txt(x) in flag_texts for x in ast.walk(xt[id(n)]))]
+    decided = [(t, bool(mini_eval(xt[id(t)], dict.fromkeys(flag_texts, True)))) for t in tests]
     r = _consistent_reach(cfg, decided)
     reaches_insert = any(r & cfg.done(i) for i in ins)
     ctx.check(not reaches_insert and cfg.exit not in r, "RF-DOM", "no-open-while-draining", reg_open, ins[0],
@@ -280,7 +300,7 @@ def _check_drain(ctx: Ctx, reg: ClassInfo, reg_open: FunctionInfo, reg_get: Func
               ok="the refusal raised while draining carries error_kind 'server_draining'",
               bad=f"the refusal raised while draining has error kind(s) {kinds}: the client cannot tell a draining worker from a failure")
     # decided with the flag false: registration is reached (existing behaviour keeps working)
-    r0 = _consistent_reach(cfg, [(t, bool(mini_eval(t.test, dict.fromkeys(flag_texts, False)))) for t in tests])
+    r0 = _consistent_reach(cfg, [(t, bool(mini_eval(xt[id(t)], dict.fromkeys(flag_texts, False)))) for t in tests])
     ctx.check(any(r0 & cfg.done(i) for i in ins), "RF-DOM", "open-registers-when-not-draining", reg_open, ins[0],
               ok="when not draining the session is registered", bad="the session is never registered even when not draining")
     # resume path does not consult the drain flag
@@ -376,7 +396,7 @@ def _check_abs(ctx: Ctx, pr: FunctionInfo, prs: FunctionInfo, ctor: ast.Call, si
             pvars.add(n.target.id)
     if not pvars:
         raise AnalysisError("anchor=process_response: local holding the sink not found")
-    emit_stmts = [st for st in prs.node.body if any(isinstance(c, ast.Call) and last_attr(c) == "set_header" for c in walk_scope(st))]
+    emit_stmts = expand_body(prs, [st for st in prs.node.body if any(isinstance(c, ast.Call) and last_attr(c) == "set_header" for c in walk_scope(st))])
     some(emit_stmts, "header emission in process_response", prs)
     emit_fields = {x.attr for st in emit_stmts for x in walk_scope(st) if isinstance(x, ast.Attribute) and isinstance(x.value, ast.Name) and x.value.id in pvars and x.attr in fields}
     if not emit_fields:
@@ -424,7 +444,7 @@ def _check_abs(ctx: Ctx, pr: FunctionInfo, prs: FunctionInfo, ctor: ast.Call, si
             env[f"self.{f}"] = state.get(f, _Obj(f))
         for a in m.node.args.args[1:]:
             env[a.arg] = None if a.arg == "ttl" else _Obj(a.arg)
-        Interp(lambda t: t in tracked, on_call, what=f"{m.fq}").run(m.node.body, env)
+        Interp(lambda t: t in tracked, on_call, what=f"{m.fq}").run(expand_body(m, m.node.body), env)
         for f in fields:
             if f"self.{f}" in env:
                 state[f] = env[f"self.{f}"]
@@ -456,21 +476,25 @@ def _check_abs(ctx: Ctx, pr: FunctionInfo, prs: FunctionInfo, ctor: ast.Call, si
     if not (isinstance(r0, ast.Attribute) and isinstance(r0.value, ast.Name) and r0.value.id == "self"):
         raise AnalysisError("C27: current_session_token does not return a view field")
     tok_f = r0.attr
-    tok_texts = {txt(x) for x in walk_scope(cap.node) if isinstance(x, ast.Attribute) and x.attr == tok_f}
+    cap_body = expand_body(cap, cap.node.body)
+    tok_texts = {txt(x) for st in cap_body for x in ast.walk(st) if isinstance(x, ast.Attribute) and x.attr == tok_f}
     if not tok_texts:
         raise AnalysisError("anchor=_capture: the view's token field is never touched")
     resp_param = cap.node.args.args[1].arg
     hdr_texts = {txt(x) for x in walk_scope(cap.node) if isinstance(x, ast.Attribute) and isinstance(x.value, ast.Name) and x.value.id == resp_param}
+    # locals that receive the response's header mapping (`h = resp.headers`, `h = getattr(resp, "headers", None)`)
+    hdr_names = {t.id for n in walk_scope(cap.node) if isinstance(n, ast.Assign) and resp_param in names_in(n.value)
+                 and any((isinstance(x, ast.Attribute) and x.attr == "headers") or (isinstance(x, ast.Constant) and x.value == "headers") for x in ast.walk(n.value)) for t in n.targets if isinstance(t, ast.Name)}
 
     def capture(token0: object, headers: dict[str, object], model: str) -> object:
         env: dict[str, object] = dict(module_str_consts(repo, cap))
         h = CIDict({k: v for k, v in headers.items()}) if model == "ci" else {k.lower(): v for k, v in headers.items()}  # type: ignore[arg-type]
-        for t in hdr_texts:
+        for t in hdr_texts | hdr_names:
             env[t] = h
         env[resp_param] = _Obj("resp")
         for t in tok_texts:
             env[t] = token0
-        Interp(lambda t: t in tok_texts, lambda c, e: (False, None), pinned={resp_param}, what=cap.fq).run(cap.node.body, env)
+        Interp(lambda t: t in tok_texts, lambda c, e: (False, None), pinned={resp_param} | hdr_names, what=cap.fq).run(cap_body, env)
         vals = {env[t] for t in tok_texts}
         if len(vals) != 1:
             raise AnalysisError("C27: _capture leaves two different view tokens")
@@ -611,13 +635,15 @@ def _check_client(ctx: Ctx) -> None:
     else:
         w = writes[0]
         cfg = cfg_of(mh.node)
-        tok_attr = [x for x in ast.walk(w.value) if isinstance(x, ast.Attribute) and x.attr == tok_f]
-        tests = [t for t in walk_scope(mh.node) if isinstance(t, ast.If) and any(isinstance(x, ast.Attribute) and x.attr == tok_f for x in ast.walk(t.test))]
-        env_tok = {txt(x): "tok" for t in tests for x in ast.walk(t.test) if isinstance(x, ast.Attribute) and x.attr == tok_f}
-        env_none = {k: None for k in env_tok}
-        r_tok = _consistent_reach(cfg, [(t, bool(mini_eval(t.test, env_tok))) for t in tests])
-        r_none = _consistent_reach(cfg, [(t, bool(mini_eval(t.test, env_none))) for t in tests])
-        sent = bool(cfg.done(w) & r_tok) and cfg.exit not in cfg.reach({cfg.entry}, cfg.done(w), {e for t in tests for e in cfg.test_edges(t, "F" if mini_eval(t.test, env_tok) else "T")})
+        tok_attr = [x for x in ast.walk(expand(mh, w.value)) if isinstance(x, ast.Attribute) and x.attr == tok_f]
+        xt = {id(t): expand(mh, t.test) for t in walk_scope(mh.node) if isinstance(t, ast.If)}
+        tests = [t for t in walk_scope(mh.node) if isinstance(t, ast.If) and any(isinstance(x, ast.Attribute) and x.attr == tok_f for x in ast.walk(xt[id(t)]))]
+        others = {txt(x): False for t in tests for x in ast.walk(xt[id(t)]) if isinstance(x, ast.Attribute) and x.attr != tok_f and not any(isinstance(y, ast.Attribute) and y.attr == tok_f for y in ast.walk(x))}
+        env_tok = {**others, **{txt(x): "tok" for t in tests for x in ast.walk(xt[id(t)]) if isinstance(x, ast.Attribute) and x.attr == tok_f}}
+        env_none = {**others, **{k: None for k in env_tok if k not in others}}
+        r_tok = _consistent_reach(cfg, [(t, bool(mini_eval(xt[id(t)], env_tok))) for t in tests])
+        r_none = _consistent_reach(cfg, [(t, bool(mini_eval(xt[id(t)], env_none))) for t in tests])
+        sent = bool(cfg.done(w) & r_tok) and cfg.exit not in cfg.reach({cfg.entry}, cfg.done(w), {e for t in tests for e in cfg.test_edges(t, "F" if mini_eval(xt[id(t)], env_tok) else "T")})
         ctx.check(bool(tok_attr) and sent and not (cfg.done(w) & r_none), "RF-DOM", "held-token-sent", mh, w,
                   ok="with a token held the request always carries it in VGI-Session; with none it carries no VGI-Session",
                   bad="the VGI-Session header is not sent exactly when a token is held (or carries something other than the view's token)")
@@ -644,15 +670,16 @@ def _check_client(ctx: Ctx) -> None:
         ctx.fail("RF-PAIR", "exit-deletes-live-session", ov, None, "leaving with_session_token() no longer issues the DELETE for a session that is still live")
     else:
         d = dels[0]
-        tests = [t for t in walk_scope(ov.node) if isinstance(t, ast.If) and any(isinstance(x, ast.Attribute) and x.attr == tok_f for x in ast.walk(t.test))]
-        attrs = {txt(x): x.attr for t in tests for x in ast.walk(t.test) if isinstance(x, ast.Attribute)}
+        xt = {id(t): expand(ov, t.test) for t in walk_scope(ov.node) if isinstance(t, ast.If)}
+        tests = [t for t in walk_scope(ov.node) if isinstance(t, ast.If) and any(isinstance(x, ast.Attribute) and x.attr == tok_f for x in ast.walk(xt[id(t)]))]
+        attrs = {txt(x): x.attr for t in tests for x in ast.walk(xt[id(t)]) if isinstance(x, ast.Attribute)}
 
         def envv(token: object, other: object) -> dict[str, object]:
             return {k: (token if a == tok_f else other) for k, a in attrs.items()}
 
-        live = _consistent_reach(cfgv, [(t, bool(mini_eval(t.test, envv("tok", False)))) for t in tests])
-        none = _consistent_reach(cfgv, [(t, bool(mini_eval(t.test, envv(None, False)))) for t in tests])
-        passes_token = bool(d.args) and any(isinstance(x, ast.Attribute) and x.attr == tok_f for x in ast.walk(d.args[0]))
+        live = _consistent_reach(cfgv, [(t, bool(mini_eval(xt[id(t)], envv("tok", False)))) for t in tests])
+        none = _consistent_reach(cfgv, [(t, bool(mini_eval(xt[id(t)], envv(None, False)))) for t in tests])
+        passes_token = bool(d.args) and any(isinstance(x, ast.Attribute) and x.attr == tok_f for x in ast.walk(expand(ov, d.args[0])))
         ctx.check(bool(cfgv.attempt(d) & live) and not (cfgv.attempt(d) & none) and passes_token, "RF-PAIR", "exit-deletes-live-session", ov, d,
                   ok="on leaving the block a held token (view not closed/detached) is sent in the best-effort DELETE; with no token nothing is sent",
                   bad="on leaving the block a still-live session is not deleted with the view's token (or a DELETE is sent without one)")
